@@ -18,10 +18,14 @@ type (
 	Violation   = scen.Violation
 	RunInput    = scen.RunInput
 	RunRecord   = scen.RunRecord
+	WarcRec     = scen.WarcRec
+	WarcIndex   = scen.WarcIndex
 )
 
 var (
 	NewTape       = scen.NewTape
 	NewReplayTape = scen.NewReplayTape
 	gzipBytes     = scen.GzipBytes
+	NewWarcIndex  = scen.NewWarcIndex
+	uriKey        = scen.URIKey
 )
